@@ -332,4 +332,4 @@ _add(Cond('relabel_rename_insert', [('pos', 'int'), ('newlab', 'int'), ('nm', 'i
         ranges={'pos': (0, 3), 'nm': (0, 2)},
         functions=['Frame.relabel', 'Frame.rename', 'Frame._insert'],
         bounds='2x4 frame; position of the relabelled/insertion column symbolic in 0..3, new label an unbounded symbolic int, new name in 0..2',
-        route='Frame.relabel(columns={label: new}), Frame.rename(name), Frame.insert_before/after(label, Series)'))
+        route='Frame.relabel(columns={label: new}), Frame.rename(name), Frame.insert_before/after(label, Series)', timeout=240))
